@@ -162,7 +162,8 @@ def proj_media(ml):
                 continue
             toks.append(v if isinstance(v, str) else _ws(getattr(v, 'cssText', repr(v))))
         out.append(tuple(toks))
-    return tuple(out)
+    # a list without queries denotes (and is written as) "all"
+    return tuple(out) or (('all',),)
 
 
 def unknown_items(rule):
